@@ -115,6 +115,11 @@ def targets(meth):
         ("generator-var-call", "any(f() for f in [r.c.%s])" % meth),
         ("generator-var-call", "any(f() for f in [r.s.%s])" % meth),
         ("generator-var-attr", "any(f.%s() for f in [r.c])" % meth),
+        ("generator-var-call-after-inner-generator", "any(any(q for q in [1]) and f() for f in [r.c.%s])" % meth),
+        ("generator-var-call-after-inner-generator", "any(f() for f in [r.c.%s] if any(q for q in [1]))" % meth),
+        ("generator-var-call-after-inner-generator", "any([all(q for q in [1]), f()] for f in [r.c.%s])" % meth),
+        ("generator-var-call-after-inner-generator", "any(any(f() for q in [1]) for f in [r.c.%s])" % meth),
+        ("generator-var-call-after-sibling-generator", "any(q for q in [0]) or any(f() for f in [r.c.%s])" % meth),
         ("generator-var-named-like-whitelisted", "any(%s() for %s in [r.c.m])" % (meth, meth)),
         ("generator-var-named-like-whitelisted", "any(%s(1) for %s in [r.c.m, r.s.upper])" % (meth, meth)),
         ("call-of-call", "r.c.%s()()" % meth),
